@@ -134,6 +134,11 @@ class StmtMixin(object):
       return ('raise', ast.unparse(e))
     if isinstance(node, ast.Delete):
       return ('del',) + tuple(ast.unparse(t) for t in node.targets)
+    if isinstance(node, (ast.If, ast.While)):
+      # a compound statement is recognised by the functions its condition calls (arguments may have changed)
+      called = sorted(set(ast.unparse(c.func) for c in ast.walk(node.test) if isinstance(c, ast.Call)))
+      if called:
+        return ('if' if isinstance(node, ast.If) else 'while',) + tuple(called)
     return None
 
   def resolve_anchors(self, spec, fnode):
@@ -159,7 +164,7 @@ class StmtMixin(object):
         pending.append((g, a))
     for g, a in pending:
       try:
-        an = ast.parse(a).body[0]
+        an = ast.parse(a + (' pass' if a.endswith(':') else '')).body[0]
       except SyntaxError:
         continue
       shape = self._stmt_shape(an)
